@@ -71,4 +71,19 @@ PROPS = {
             "A-SET-ORDER iteration over a set / list(aset) visits each element once in an arbitrary order; the iterated set is not mutated during the loop (true here: the bodies write other dict entries)",
         ],
     },
+    "C13": {
+        "category": "proof",
+        "harness_modes": ["crosscheck"],
+        "explanation": "MatchingRule.eval is proved to return exactly 'same deployment, service unset or equal, every port predicate equals str(input value)' "
+        "(loop invariant over the predicates); MatchingBindingFilter.get_targets is proved to return exactly the targets admitted by some rule, AS A SEQUENCE in the "
+        "declared order, and to raise iff none is admitted; the filter loop of DefaultScheduler.schedule is proved to apply every configured filter, in order, to what "
+        "the previous ones kept (fold invariant over a recursive spec function, break/early exit excluded). NOT proved: MatchingBindingFilter.__init__ (JSON-shaped "
+        "configuration, outside the subset: covered by the bounded run-time check only), the order in which asyncio starts the per-target tasks and grants the "
+        "scheduler lock (assumed FIFO), and the placement policy inside _process_target.",
+        "assumptions": [
+            "A-ASYNCIO tasks created in list order start in that order and the Condition lock is granted FIFO, so the first surviving declared target is evaluated first",
+            "BindingFilter.get_targets (abstract) is summarised by an uninterpreted function flt(filter, job, targets); DefaultScheduler._get_binding_filter returns the one filter instance per configuration name",
+            "exceptions raised by eval for a missing port / file-list-object input are excluded by precondition (welltyped)",
+        ],
+    },
 }
